@@ -7,8 +7,10 @@ EXTENDS WSReaderMC
 CONSTANTS CtlLens, ReasonLens
 
 HCfgs == {<<"default", 0>>, <<"record", 0>>, <<"chain", 0>>, <<"err", 1>>, <<"err", 2>>, <<"err", 3>>}
-MCCfgs == {[role |-> r, pmce |-> FALSE, limit |-> 0, hmode |-> h[1], herrAt |-> h[2], policy |-> "per_message"]
-             : r \in {"server", "client"}, h \in HCfgs}
+(* limit 6: every data message of this space has at most 6 bytes; control frames are not counted against the  *)
+(* read limit, so they must be handled exactly as without a limit                                             *)
+MCCfgs == {[role |-> r, pmce |-> FALSE, limit |-> L, hmode |-> h[1], herrAt |-> h[2], policy |-> "per_message"]
+             : r \in {"server", "client"}, h \in HCfgs, L \in {0, 6}}
 
 T(c, fin, n) == Fr(c, OpText, fin, n)
 D(c, fin, n) == Fr(c, OpBin, fin, n)
@@ -31,6 +33,9 @@ MCCuts(st) == {NoCut}
 
 MCProgs(st) ==
   { << Op("RM"), Op("RM"), Op("RM") >>,
+    \* a WriteControl of the application that times out before it gets the connection writes nothing and poisons
+    \* nothing: pings are still answered and closes echoed afterwards
+    << Op("WCP"), Op("RM"), Op("WCP"), Op("RM"), Op("RM") >>,
     << Op("NR"), Rd(1), Op("RA"), Op("NR"), Op("RA"), Op("NR") >>,
     << Op("NR"), Rl(1), Op("RM") >>,
     << Op("NR"), Op("NR"), Op("NR") >> }
